@@ -160,7 +160,8 @@ fn fwd(op: &Op, _ctx: &dyn Context, operands: &mut dyn CoordinateSet) -> usize {
             }
         }
 
-        if use_null_grid {
+        // The null grid covers any position - but a NaN is not a position
+        if use_null_grid && !geo[0].is_nan() && !geo[1].is_nan() {
             successes += 1;
             continue;
         }
@@ -215,7 +216,8 @@ fn inv(op: &Op, _ctx: &dyn Context, operands: &mut dyn CoordinateSet) -> usize {
             }
         }
 
-        if use_null_grid {
+        // The null grid covers any position - but a NaN is not a position
+        if use_null_grid && !geo[0].is_nan() && !geo[1].is_nan() {
             successes += 1;
             continue;
         }
